@@ -75,27 +75,39 @@ func (r *recog) isVar(name string) bool {
 }
 
 // Recognize decides a token list.
-func Recognize(toks []gen.Tok) (v Verdict) {
+func Recognize(toks []gen.Tok) Verdict {
+	_, v := ParseTokens(toks)
+	return v
+}
+
+// ParseTokens decides a token list and, when it is accepted, also gives the
+// tree the documented grammar assigns to it (redundant parentheses become
+// "par" nodes), so that R1 can evaluate sources the harness did not
+// generate from a tree (mutants, the repository's test table).
+func ParseTokens(toks []gen.Tok) (prog *gen.Prog, v Verdict) {
 	r := &recog{toks: toks, scopes: [][]string{nil}}
+	prog = &gen.Prog{}
 	defer func() {
 		if x := recover(); x != nil {
 			f, ok := x.(recogFail)
 			if !ok {
 				panic(x)
 			}
-			v = Verdict{Accept: false, FailTok: f.at, Class: f.class, Unspecified: r.unspec}
+			prog, v = nil, Verdict{Accept: false, FailTok: f.at, Class: f.class, Unspecified: r.unspec}
 		}
 	}()
 	for r.i < len(r.toks) {
-		r.decl()
+		st := r.decl()
 		if r.isP(";") {
 			r.i++
+			st.Semi = true
 		}
+		prog.Stmts = append(prog.Stmts, st)
 	}
-	return Verdict{Accept: true, FailTok: -1, Unspecified: r.unspec}
+	return prog, Verdict{Accept: true, FailTok: -1, Unspecified: r.unspec}
 }
 
-func (r *recog) decl() {
+func (r *recog) decl() *gen.Stmt {
 	switch {
 	case r.isW("var"):
 		r.i++
@@ -110,24 +122,29 @@ func (r *recog) decl() {
 			}
 		}
 		r.i++
+		st := &gen.Stmt{K: "var", Name: name}
 		if r.isP("=") {
 			r.i++
-			r.expr() // the new name is not visible in its own initializer
+			st.E = r.expr() // the new name is not visible in its own initializer
 		}
 		r.scopes[len(r.scopes)-1] = append(r.scopes[len(r.scopes)-1], name)
+		return st
 	case r.isW("print"), r.isW("eval"):
+		k := r.toks[r.i].S
 		r.i++
-		r.expr()
+		return &gen.Stmt{K: k, E: r.expr()}
 	case r.isW("def"):
 		r.i++
 		if !r.isIdent() {
 			r.fail(r.i, "syntax")
 		}
+		st := &gen.Stmt{K: "def", Name: r.toks[r.i].S}
 		r.i++
 		if t, ok := r.peek(); ok && t.K == gen.KStr {
 			if _, good := gen.Unquote(t.S); !good {
 				r.fail(r.i, "badliteral")
 			}
+			st.HasBName, st.BNameLit = true, t.S
 			r.i++
 		}
 		if !r.isP("{") {
@@ -137,10 +154,12 @@ func (r *recog) decl() {
 		r.scopes = append(r.scopes, nil)
 		r.depth++
 		for r.i < len(r.toks) && !r.isP("}") {
-			r.decl()
+			b := r.decl()
 			if r.isP(";") {
 				r.i++
+				b.Semi = true
 			}
+			st.Body = append(st.Body, b)
 		}
 		if !r.isP("}") {
 			r.fail(r.i, "syntax")
@@ -148,6 +167,7 @@ func (r *recog) decl() {
 		r.i++
 		r.depth--
 		r.scopes = r.scopes[:len(r.scopes)-1]
+		return st
 	case r.isW("bind"):
 		if r.depth > 0 {
 			r.unspec = "bind inside a block"
@@ -156,11 +176,13 @@ func (r *recog) decl() {
 		if !r.isIdent() {
 			r.fail(r.i, "syntax")
 		}
+		st := &gen.Stmt{K: "bind", Name: r.toks[r.i].S}
 		r.i++
 		all := false
 		if r.isP(":") {
 			r.i++
 			t, ok := r.peek()
+			st.HasSel, st.Sel = true, t
 			switch {
 			case ok && t.K == gen.KNum && isIntTok(t.S):
 				if t.S != "1" {
@@ -195,12 +217,14 @@ func (r *recog) decl() {
 		default:
 			r.fail(r.i, "bindtarget")
 		}
+		st.Target = r.toks[r.i].S
 		r.i++
+		return st
 	default:
 		if r.depth == 0 {
 			r.fail(r.i, "syntax") // expected statement
 		}
-		r.expr()
+		return &gen.Stmt{K: "expr", E: r.expr()}
 	}
 }
 
@@ -219,7 +243,7 @@ func isIntTok(s string) bool {
 
 // expr := IDENT '=' expr | or ; a '=' after a complete operand is the
 // "invalid assignment target" error.
-func (r *recog) expr() {
+func (r *recog) expr() *gen.Expr {
 	if r.isIdent() {
 		if n, ok := r.peekAt(1); ok && n.K == gen.KPunct && n.S == "=" {
 			name := r.toks[r.i].S
@@ -227,90 +251,89 @@ func (r *recog) expr() {
 				r.fail(r.i, "undefined")
 			}
 			r.i += 2
-			r.expr()
-			return
+			return &gen.Expr{K: "asg", T: name, A: r.expr()}
 		}
 	}
-	r.or()
+	e := r.or()
 	if r.isP("=") {
 		r.fail(r.i, "assign")
 	}
+	return e
 }
 
-func (r *recog) or() {
-	r.and()
-	for r.isW("or") {
+// and/or chains: the grouping cannot be observed; the tree is built
+// right-grouped like the renderer writes it
+func (r *recog) or() *gen.Expr {
+	e := r.and()
+	if r.isW("or") {
 		r.i++
-		r.and()
+		return &gen.Expr{K: "or", A: e, B: r.or()}
 	}
+	return e
 }
 
-func (r *recog) and() {
-	r.not()
-	for r.isW("and") {
+func (r *recog) and() *gen.Expr {
+	e := r.not()
+	if r.isW("and") {
 		r.i++
-		r.not()
+		return &gen.Expr{K: "and", A: e, B: r.and()}
 	}
+	return e
 }
 
-func (r *recog) not() {
+func (r *recog) not() *gen.Expr {
 	if r.isW("not") {
 		r.i++
-		r.not()
-		return
+		return &gen.Expr{K: "not", A: r.not()}
 	}
-	r.eq()
+	return r.eq()
 }
 
-func (r *recog) eq() {
-	r.cmp()
-	for r.isP("==") || r.isP("!=") {
-		r.i++
-		r.cmp()
-	}
-}
-
-func (r *recog) cmp() {
-	r.add()
-	for r.isP("<") || r.isP(">") || r.isP("<=") || r.isP(">=") {
-		r.i++
-		r.add()
-	}
-}
-
-func (r *recog) add() {
-	r.mul()
-	for r.isP("+") || r.isP("-") {
-		r.i++
-		r.mul()
+func (r *recog) binLevel(next func() *gen.Expr, ops ...string) *gen.Expr {
+	e := next()
+	for {
+		matched := false
+		for _, op := range ops {
+			if r.isP(op) {
+				r.i++
+				e = &gen.Expr{K: "bin", T: op, A: e, B: next()}
+				matched = true
+				break
+			}
+		}
+		if !matched {
+			return e
+		}
 	}
 }
 
-func (r *recog) mul() {
-	r.unary()
-	for r.isP("*") || r.isP("/") {
-		r.i++
-		r.unary()
-	}
-}
+func (r *recog) eq() *gen.Expr  { return r.binLevel(r.cmp, "==", "!=") }
+func (r *recog) cmp() *gen.Expr { return r.binLevel(r.add, "<=", ">=", "<", ">") }
+func (r *recog) add() *gen.Expr { return r.binLevel(r.mul, "+", "-") }
+func (r *recog) mul() *gen.Expr { return r.binLevel(r.unary, "*", "/") }
 
-func (r *recog) unary() {
+func (r *recog) unary() *gen.Expr {
 	if r.isP("-") || r.isP("+") {
+		k := "neg"
+		if r.isP("+") {
+			k = "pos"
+		}
 		r.i++
-		r.unary()
-		return
+		return &gen.Expr{K: k, A: r.unary()}
 	}
-	r.primary()
+	return r.primary()
 }
 
-func (r *recog) primary() {
+func (r *recog) primary() *gen.Expr {
 	t, ok := r.peek()
 	if !ok {
 		r.fail(r.i, "syntax")
 	}
 	switch t.K {
 	case gen.KNum:
+		k := "float"
 		if isIntTok(t.S) {
+			k = "int"
 			if _, good := ParseIntLit(t.S); !good {
 				r.fail(r.i, "badliteral")
 			}
@@ -318,22 +341,25 @@ func (r *recog) primary() {
 			r.fail(r.i, "badliteral")
 		}
 		r.i++
+		return &gen.Expr{K: k, T: t.S}
 	case gen.KStr:
 		if _, good := gen.Unquote(t.S); !good {
 			r.fail(r.i, "badliteral")
 		}
 		r.i++
+		return &gen.Expr{K: "str", T: t.S}
 	case gen.KWord:
 		switch t.S {
 		case "true", "false", "nil":
 			r.i++
+			return &gen.Expr{K: t.S}
 		case "not":
 			// 'not' directly under a tighter operator: outside the documented
 			// precedence list (a syntax error in the stated model, Python);
 			// the documentation does not settle it
 			r.unspec = "'not' as the direct operand of a tighter operator"
 			r.i++
-			r.not()
+			return &gen.Expr{K: "not", A: r.not()}
 		default:
 			if gen.IsKeyword(t.S) {
 				r.fail(r.i, "syntax")
@@ -342,16 +368,19 @@ func (r *recog) primary() {
 				r.fail(r.i, "undefined")
 			}
 			r.i++
+			return &gen.Expr{K: "id", T: t.S}
 		}
 	case gen.KPunct:
 		if t.S != "(" {
 			r.fail(r.i, "syntax")
 		}
 		r.i++
-		r.expr()
+		e := r.expr()
 		if !r.isP(")") {
 			r.fail(r.i, "syntax")
 		}
 		r.i++
+		return &gen.Expr{K: "par", A: e}
 	}
+	panic("unreachable")
 }
